@@ -423,7 +423,7 @@ if __name__ == '__main__':
     os.makedirs(os.path.join(w, 'gen'))
     sys.path.insert(0, os.path.dirname(os.path.abspath(__file__)))
     import gen
-    gen.gen_options('/repo', os.path.join(w, 'gen'))
+    gen.gen_options(os.environ.get('VERIF_REPO', '/repo'), os.path.join(w, 'gen'))
     for sc in (scenario_md5_after_rename, scenario_failed_close, scenario_failed_backup, scenario_check_truth, scenario_too_big, scenario_enum_roundtrip,
                scenario_gating_default, scenario_lang_leak, scenario_line_endings, scenario_encoding, scenario_whitespace_hygiene, scenario_ignored_region,
                scenario_blank_lines, scenario_sp_bool_site, lambda e, w_: scenario_spacing_option(e, w_, 'sp_arith')):
